@@ -482,6 +482,96 @@ def run_events(ctx, case):
     ctx.case(case, not should_accept or not isinstance(v, np.ndarray), labels=["event", "accepted" if exc is None else "refused"])
 
 
+# ---------------------------------------------------------------------------------------
+SEELAB_PAIR_ARGS = ["focus", "optical_center", "radial_distortion", "decentering", "thin_prism"]
+
+
+def enum_joint(tier):
+    """TWO or more arguments of one call mis-shaped at once, in ways that cancel out in any aggregate (total length, total size): the five (2,)
+    parameters of a Seelab camera record with lengths (3,1), (1,3), (0,4), (4,0), (3,3,0,...); the three (n,3) arrays of a force track with
+    transposed / flattened shapes of the same size"""
+    for i, a in enumerate(SEELAB_PAIR_ARGS):
+        for b in SEELAB_PAIR_ARGS[i + 1:]:
+            for la, lb in ((3, 1), (1, 3), (0, 4), (4, 0)):
+                yield {"what": "seelab", "lengths": {a: la, b: lb}}
+    for trio in (("focus", "optical_center", "thin_prism"), ("radial_distortion", "decentering", "thin_prism")):
+        for ls in ((3, 3, 0), (0, 3, 3), (4, 1, 1), (1, 1, 4)):
+            yield {"what": "seelab", "lengths": dict(zip(trio, ls))}
+    for shapes in (((3, 2), (3, 2), (3, 2)), ((6,), (6,), (6,)), ((1, 6), (1, 6), (1, 6)), ((2, 3), (3, 2), (2, 3)), ((2, 3), (6,), (2, 3)), ((3, 2), (2, 3), (2, 3))):
+        yield {"what": "force-track", "shapes": [list(s) for s in shapes]}
+
+
+def run_joint(ctx, case):
+    from basictdf.tdfCalibrationData import SeelabCameraData
+    from basictdf.tdfForce3D import ForceTorqueTrack
+
+    if case["what"] == "seelab":
+        args = {"rotation_matrix": np.eye(3), "translation_vector": np.ones(3), "view_port": np.array([[0, 0], [640, 480]], dtype="<i4")}
+        for name in SEELAB_PAIR_ARGS:
+            args[name] = np.ones(case["lengths"].get(name, 2))
+        fn, desc = (lambda: SeelabCameraData(**args)), "SeelabCameraData with " + ", ".join(f"{k} of shape ({v},)" for k, v in case["lengths"].items())
+    else:
+        vals = [np.ones(tuple(s), dtype="<f4") for s in case["shapes"]]
+        fn, desc = (lambda: ForceTorqueTrack("t", *vals)), f"ForceTorqueTrack with shapes {case['shapes']}"
+    try:
+        fn()
+        accepted = True
+    except Exception:  # noqa
+        accepted = False
+    if accepted:
+        ctx.fail(f"{case['what']}/accepts-jointly-wrong-shapes", f"{desc} (every one of them wrong, together adding up to the right total) was accepted")
+    ctx.case(case, True, labels=["joint", case["what"]])
+
+
+def enum_lifetimes(tier):
+    """a valid argument that is a TEMPORARY (a row of a table, a reshape, a slice: freed as soon as the call returns) followed at once by a
+    wrong-shaped one - which CPython likes to allocate at the address just freed: a decision remembered by id() is a decision about another object"""
+    for arg in ("OpticalChannelData.camera_viewport", "MarkerTrack-in-Data3D", "EMGTrack-in-EMG"):
+        for rounds in (400,):
+            yield {"arg": arg, "rounds": rounds}
+
+
+def run_lifetimes(ctx, case):
+    from basictdf.tdfData3D import Data3D, MarkerTrack
+    from basictdf.tdfEMG import EMG, EMGTrack
+    from basictdf.tdfOpticalSystem import OpticalChannelData
+
+    arg, wrong = case["arg"], 0
+    bad_shapes = [(3, 2), (2, 3), (2,), (4,), (2, 2, 2), (), (1, 2), (2, 1)]
+    table = np.arange(4 * case["rounds"], dtype="<i4").reshape(case["rounds"], 2, 2)
+    for i in range(case["rounds"]):
+        if arg == "OpticalChannelData.camera_viewport":
+            OpticalChannelData(i, "l", "t", "n", table[i])          # a view: gone when the call returns
+            shape = bad_shapes[i % len(bad_shapes)]
+            try:
+                OpticalChannelData(i, "l", "t", "n", np.zeros(shape, dtype="<i4"))
+                wrong += 1
+                ctx.fail("lifetimes/viewport-accepted-after-a-freed-valid-one", f"OpticalChannelData accepted a viewport array of shape {shape} right after a valid temporary (2,2) "
+                                                                                f"view had been validated and freed (round {i})")
+            except Exception:  # noqa
+                pass
+        else:
+            n = 3
+            if arg.startswith("Marker"):
+                blk = Data3D(100, n, np.ones(3, "<f4"), np.eye(3, dtype="<f4"), np.ones(3, "<f4"))
+                good, bad, add = (lambda: MarkerTrack("g", np.ones((n, 3), "<f4"))), (lambda: MarkerTrack("b", np.ones((n + 1, 3), "<f4"))), blk.add_track
+            else:
+                blk = EMG(1000, n)
+                good, bad, add = (lambda: EMGTrack("g", np.ones(n, "<f4"))), (lambda: EMGTrack("b", np.ones(n + 1, "<f4"))), blk.addSignal
+            add(good())
+            if arg.startswith("Marker"):
+                blk.tracks = []          # the valid track leaves the block and is released
+            else:
+                blk.removeSignal("g")
+            try:
+                add(bad())
+                ctx.fail("lifetimes/wrong-length-track-accepted-after-a-freed-valid-one", f"{arg}: a track of {n + 1} frames was accepted by a block of {n} frames right after a "
+                                                                                          f"valid track had been added, removed and released (round {i})")
+            except Exception:  # noqa
+                pass
+    ctx.case(case, True, labels=["lifetimes", arg])
+
+
 class _Sub:
     """run_events for one step of a sequence: verdicts carry the sequence in their key and text, the step is not a case of its own"""
 
@@ -525,6 +615,12 @@ def run_event_orders(ctx, case):
 
 
 SUBS = [
+    Sub("jointly-wrong-arguments", run_joint, kind="enum", enumerate=enum_joint, shards=(2, 4),
+        rule="two or three arguments of ONE call mis-shaped so that an aggregate still fits: every pair of the five (2,) Seelab camera parameters with lengths (3,1) (1,3) (0,4) "
+             "(4,0), triples (3,3,0) (4,1,1) ..., force-track arrays transposed / flattened to the same size: refused; finite, enumerated", nontrivial_required=False),
+    Sub("argument-lifetimes", run_lifetimes, kind="enum", enumerate=enum_lifetimes, shards=(1, 3),
+        rule="a valid argument that is a temporary (row of a table; a track added, removed and released) followed at once by a wrong-shaped one, 400 rounds each for the optical "
+             "viewport, marker tracks and EMG signals: refused every time (a decision remembered by id() outlives its object); finite, enumerated", nontrivial_required=False),
     Sub("event-call-orders", run_event_orders, kind="enum", enumerate=enum_event_orders, shards=(4, 8),
         rule="for each of the 32 kinds of values (x both event types) as the FIRST Event constructor call after the library's module state was put back to its import-time "
              "content: all 64 (values, type) combinations judged afterwards exactly as in `events`; finite, enumerated", nontrivial_required=False),
